@@ -43,6 +43,8 @@ FACTORY = (
     ("dedup",),
     ("chain", ("self",)),
     ("join", ("K",), None, False),
+    ("join", ("K",), None, True),
+    ("join", ("K",), None, False, None, "direct"),
     ("mat", None),
     ("xfer", None),
 )
